@@ -55,7 +55,9 @@ LEVEL_TEXT = {
         "text": "Theorems over all buffers, offsets, widths and both orders: read succeeds iff off+w fits (no usize overflow), "
                 "returns the unique value whose base-256 digits are the bytes in that order, advances by exactly w, leaves the "
                 "cursor untouched and reports IntegerOverflow/SliceReadError exactly as specified otherwise; signed reads are "
-                "two's complement; from_ei_data truth tables. Tied to endian.rs by differential runs of the real crate against "
+                "two's complement; from_ei_data truth tables; decode(encode v) = v for every width and both byte orders "
+                "(decodeLE_encodeLE, decodeBE_encodeBE, decode_encode: a window holding the w bytes of v in that order reads back v). "
+                "Tied to endian.rs by differential runs of the real crate against "
                 "the executable model on generated reads (all five specs on the implementation side).",
         "note": COMMON_NOTE + " The model of safe_from! is hand-written (17 lines) and validated behaviourally, not generated.",
         "technique": "Lean 4 proof over executable model + differential correspondence + reference decoder oracle",
@@ -99,7 +101,9 @@ LEVEL_TEXT["C02"] = {
             "r_info splitters, version guards) and that size_for equals the ABI size. Generic theorems over all buffers/offsets/orders: a "
             "program that fits yields exactly the values decoded at successive ABI offsets and consumes exactly its size; zero-/sign-"
             "extension are exact; r_info (ELF32/64), st_info, st_other, version index/hidden and is_undefined split exactly as the ABI macros "
-            "for every value. The translator and interpreter are validated against the compiled parsers on ABI-encoded field values.",
+            "for every value; at structure level valsAt_encoded / parse_of_encoding: a window holding the ABI encoding of any in-range field "
+            "values (each field in its width and the file's byte order, one after the other) parses back to the record built from exactly "
+            "those values and consumes exactly the structure's size. The translator and interpreter are validated against the compiled parsers on ABI-encoded field values.",
     "note": COMMON_NOTE + " Reference layouts in Ref/AbiLayouts.lean are transcribed by hand from the gABI/GNU documents.",
     "technique": "Lean 4 proof over translator-generated parse programs (kernel decide vs ABI reference) + ABI-encoder round-trip oracle",
 }
@@ -145,9 +149,12 @@ LEVEL_TEXT["C18"] = {
             "notes, section_headers_with_strtab, section_header_by_name, symbol_table/dynamic_symbol_table, dynamic (section and PT_DYNAMIC "
             "routes), symbol_version_table (incl. verneed/verdef records), find_common_data (loop body, scan, fallback): an Ok answer on the "
             "prefix is the answer on the whole file; corollary: error-or-same; read the other way, appending bytes changes no answer. "
-            "Correspondence runs the model and the real parsers (slice and stream) on a genuinely truncated copy of each generated file at "
+            "Stream parser: stream_prefix_twin - if open_stream succeeds on a truncated stream (any schedule), opening the complete stream "
+            "succeeds with the same headers, and after any history the truncated stream's state is a Twin of the complete stream's, so "
+            "whatever a query answers with Ok on the truncated stream it answers on the complete one (instances for section data, symbol "
+            "tables, dynamic, symbol versions, lookup by name; the remaining queries through the C17 theorems). Correspondence runs the model and the real parsers (slice and stream) on a genuinely truncated copy of each generated file at "
             "many prefix lengths (all lengths for a third of the files in thorough) and on files with appended bytes.",
-    "note": COMMON_NOTE + " The stream parser's prefix behaviour is covered by the correspondence (sprefix stream) and, for queries that succeed on the slice parser, by the C07 simulation; it has no separate monotonicity theorem.",
+    "note": COMMON_NOTE,
     "technique": "Lean 4 proof of monotonicity in the prefix order for every slice accessor + differential correspondence on every sampled prefix (slice and stream)",
 }
 LEVEL_TEXT["C20"] = {
@@ -256,7 +263,8 @@ LEVEL_TEXT["C08"] = {
             "only with a non-empty Vec, all arithmetic is checked); every read-buffer allocation event is <= the stream length after open "
             "and after any history of queries (allocs_bounded_after_open, allocs_bounded_history; the end > stream_len guard precedes "
             "vec![0; len]); oversized requests are BadOffset before any I/O; a cached key costs no I/O; a load_bytes(s,e) leaves the stream "
-            "position untouched or inside [s,e] (load_reads_only_its_range). Laziness at query level (each read is a range the headers "
+            "position untouched or inside [s,e] (load_reads_only_its_range), and so does a whole section_data query "
+            "(section_data_reads_only_its_range). Laziness at query level (each read is a range the headers "
             "designate; open reads only ident, header tail, shdr[0] and the two tables) is compared as a coalesced (offset, bytes) trace "
             "between model and code and checked by an oracle. Measured, not proved: std's Vec/HashMap growth policy and the header Vecs - "
             "the size-recording global allocator asserts max single allocation <= 8*len + 8 KiB.",
@@ -272,7 +280,8 @@ LEVEL_TEXT["C17"] = {
             "answers with Ok is, as a value, exactly what the same query answers on a fault-free reader over the same contents: "
             "<query>_fault_free for section_data (compressed included), the strtab/rel/rela/notes views, segment notes, "
             "section_headers_with_strtab, section_header_by_name, symbol_table/dynamic_symbol_table, dynamic, symbol_version_table, plus the "
-            "read_bytes primitive; reachable_twin combines them for every state reachable from open by any history. Tied to the code by a "
+            "read_bytes primitive; reachable_twin combines them for every state reachable from open by any history; open_fault_free: an open that succeeds under "
+            "any schedule yields the headers of the fault-free open. Tied to the code by a "
             "fault-injecting reader driven by the same schedule as the model: a fault at every single I/O call index of every history "
             "(exhaustive over positions; error and EOF kinds, transient and permanent) plus random multi-fault schedules; oracle = the "
             "fault-free run of the real code.",
